@@ -200,7 +200,7 @@ pub fn run(ctx: &Ctx) -> Report {
         ls.push(E::A(Act::FPrintf("f".into(), vec![])));
         ls.push(E::A(Act::PrintFid));
         let leaf = prop::sample::select(ls).boxed();
-        let strat = (crate::gen::expr_over(leaf, 6, 14, true), any::<bool>());
+        let strat = (crate::gen::related(crate::gen::expr_over(leaf, 6, 14, true), false), any::<bool>());
         run_prop(&mut st, ctx.seed, "C09", shard as u64, cases / 16, &strat, |(t, v)| judge(t, *v), |(t, v)| case_json(t, *v));
         st
     });
